@@ -214,7 +214,18 @@ def run_c13(tier, seed, workdir):
                 have = [notime(l) for l in lines if l.split(' ')[0] in ('N', 'T', 'M', 'P', 'A')]
                 starts_ok = [l for l in lines if l.startswith('S ')]
                 cls = None
-                if starts_ok.count('S ok') != 1 or starts_ok.count('S err') != sum(1 for o in c['ops'] if o.get('dup') and o['pid'] == pid):
+                # a start is refused exactly while the pid is taken: from its accepted start on, for good when processes are kept,
+                # until the process has ended (in this very run) when they are dropped
+                taken, bad_start = False, False
+                for l in lines:
+                    if l.startswith('S ok'):
+                        bad_start = bad_start or taken
+                        taken = True
+                    elif l.startswith('S err'):
+                        bad_start = bad_start or not taken
+                    elif l.startswith('P ') and l.split(' ')[1] in TERM and not c['cfg']['keep']:
+                        taken = False
+                if bad_start or len(starts_ok) != 1 + sum(1 for o in c['ops'] if o.get('dup') and o['pid'] == pid):
                     cls, detail = '13:duplicate_start', f"start results {starts_ok}"
                 elif threads == 1 and expect == have:
                     stats['ordered_equal'] += 1
